@@ -283,7 +283,7 @@ def run(ctx):
         ctx.ob("R5", "unclosed-paren=>error", eb is not None, "reaching the end of the arguments inside a parenthesis must be an error", fn=fn, how="branch outcome")
         # every operand-taking primary arm has its missing-argument rejection: covered by the audit (an unguarded args[i+1] is an
         # unproven bounds check), recorded here as the count of arms that return Err
-        n_err = sum(1 for lits, a in arms.items() if a.err_returns())
+        n_err = sum(1 for lits, a in arms.items() if a.err_returns(with_residual=True))
         ctx.floor("R5", "arms with a rejection path", n_err, 30)
     # ---- R6 validators ----------------------------------------------------------------------------------------------------
     for path in ENUM_PARSERS:
